@@ -949,7 +949,7 @@ def _public_state(obj):
     return out
 
 
-PARAM_COMPS = ["pt-short", "pt-long", "tempo-short", "tempo-long", "mf-long", "gibbs", "tebd"]
+PARAM_COMPS = ["pt-short", "pt-long", "tempo-short", "tempo-long", "mf-long", "gibbs", "gibbs-cold", "tebd"]
 
 
 def parameter_case(perm):
@@ -976,8 +976,8 @@ def parameter_case(perm):
             m = oq.MeanFieldSystem([s_], lambda t, st, a: -0.1 * a - 0.1j * np.trace(M.SM @ st[0]))
             t_ = oq.MeanFieldTempo(m, [bath], P["tempo"], [M.RHO_GEN2], 0.5, 0.0)
             return np.array(t_.compute(5.4 * DT, progress_type="silent").system_dynamics[0].states)[-1].ravel()
-        if name == "gibbs":
-            b = oq.Bath(np.diag([0.5, -0.5]).astype(complex), M.ohmic(alpha=0.2, temperature=0.7))
+        if name in ("gibbs", "gibbs-cold"):
+            b = oq.Bath(np.diag([0.5, -0.5]).astype(complex), M.ohmic(alpha=0.2, temperature=0.7 if name == "gibbs" else 0.25))
             return np.asarray(oq.gibbs_tempo_compute(oq.System(0.3 * M.SZ + 0.2 * M.SX), b, P["gibbs"], progress_type="silent")).ravel()
         chain = oq.SystemChain(hilbert_space_dimensions=[2, 2])
         chain.add_site_hamiltonian(site=0, hamiltonian=0.5 * M.SX)
